@@ -163,14 +163,16 @@ MC["markets"] = {"quick": ("MCPools", "mc/MCPools_q.cfg"), "thorough": ("MCPools
 def statesync(tier, seed):
     rnd = random.Random("%d/statesync" % seed)
     raw = vlib.tlc_generate_raw("Durability", "gen/MCDurabilityGen_C29.cfg")
-    scs = sample(rnd, gens_sync.statesync_from_model(raw), {"quick": 60, "thorough": 0}[tier])
-    scs += gens_sync.statesync(rnd, {"quick": 12, "thorough": 250}[tier])
+    scs = sample(rnd, gens_sync.statesync_from_model(raw), {"quick": 60, "thorough": 500}[tier])
+    scs += gens_sync.statesync(rnd, {"quick": 12, "thorough": 60}[tier])
     return scs + regress("statesync")
 
 
 def export(tier, seed):
     rnd = random.Random("%d/export" % seed)
-    return gens_sync.export_import(rnd, {"quick": 20, "thorough": 400}[tier]) + regress("export")
+    model = vlib.tlc_generate("MCLedger", "gen/MCLedgerGen.cfg", "W1u", "ledger")
+    return (gens_sync.export_import(rnd, {"quick": 20, "thorough": 400}[tier])
+            + gens_sync.replay_after_import(rnd, model, {"quick": 40, "thorough": 1500}[tier]) + regress("export"))
 
 
 def determinism(tier, seed):
